@@ -159,3 +159,96 @@ class RestorePageContext(Contract):
 
 
 UNITS = [SuppressSingle(), SuppressHierarchical(), RestorePageContext()]
+
+
+# =====================================================================================================================
+SEENF = None
+
+
+def norm_val(x):
+    """Python value of a cell (None for null) as a single Val term (null is the unique NULLV)."""
+    if isinstance(x, Opt):
+        return If(x.isnone, NULLV, x.payload)
+    if x is None:
+        return NULLV
+    return to_z3(x)
+
+
+class ValidateSortingLevel0(Contract):
+    """validate_data_sorting for one grouping column: returns normally iff every run start is a value not seen before (equal keys
+    contiguous); otherwise raises ValueError - before anything is rendered (C13, the one allowed refusal of C01)."""
+    target = "services/grouping_service.py::GroupingService.validate_data_sorting"
+    serves = ["C13", "C01"]
+    models = [ExprModel(), PolarsModel(), StrModel()]
+    handlers = HANDLERS
+
+    def setup(self, c):
+        c.bind("self", _svc(c))
+        df = fresh_df(c.st, "df")
+        c.bind("df", df)
+        c.bind("group_by", c.alloc(ListObj(items=["g0"], fresh=False)))
+        c.bind("page_by", None)
+        c.bind("subline_by", None)
+        d = c.obj(df)
+        g = COLIDX(lit("g0"))
+        j = z3.Int("cj")
+        c.requires("column_exists", And(g >= 0, g < d.w, d.colname(g) == lit("g0")))
+        c.v.update(d=d, g=g, val=lambda k: d.cell(k, g))
+
+    def fresh_starts(self, c, upto):
+        val = c.v["val"]
+        j, k = z3.Ints("vj vk")
+        return ForAll([j], Implies(And(1 <= j, j < upto, val(j) != val(j - 1)), ForAll([k], Implies(And(0 <= k, k < j), val(k) != val(j)))))
+
+    def setup_loops(self, c):
+        d, val = c.v["d"], c.v["val"]
+
+        def inv(vv):
+            idx = vv.i + 1
+            seen = vv.state.obj(vv.seen_values)
+            x = z3.Const("sx", ValSort)
+            k = z3.Int("sk")
+            mem = (lambda t: seen.member(Opt(val_null(t), t))) if seen.items is None else (lambda t: Or(*[norm_val(it) == t for it in seen.items]))
+            return {"index": And(idx >= 1, idx <= d.n),
+                    "current_value_is_previous_row": And(norm_val(vv.current_value) == val(idx - 1),
+                                                          vv.current_value.isnone == val_null(vv.current_value.payload)
+                                                          if isinstance(vv.current_value, Opt) else z3.BoolVal(True)),
+                    "seen_is_the_set_of_values_so_far": ForAll([x], mem(x) == Exists([k], And(0 <= k, k < idx, val(k) == x))),
+                    "every_run_start_so_far_was_fresh": self.fresh_starts(c, idx)}
+
+        def havoc_set(I, st, name, ref):
+            from pyvc.values import SetObj
+            F = z3.Function(fresh_name("seen"), ValSort, z3.BoolSort())
+            o = st.obj(ref)
+            o.items, o.member = None, (lambda t, F=F: F(norm_val(t)))
+        self.loops = {3: LoopSpec(inv=inv, havoc={"seen_values": havoc_set, "current_value": T.Option(T.Val)})}
+        self.loops_optional = {3}
+
+    @property
+    def raises(self):
+        def r(c, out):
+            d, val = c.v["d"], c.v["val"]
+            j, k = z3.Ints("rj rk")
+            return {"only_when_equal_keys_are_not_contiguous": Exists([j, k], And(1 <= j, j < d.n, 0 <= k, k < j, val(j) != val(j - 1), val(k) == val(j)))}
+        return {"ValueError": r}
+
+    def ensures(self, c, out):
+        d = c.v["d"]
+        return {"returns_only_if_every_run_start_is_fresh": self.fresh_starts(c, d.n)}
+
+
+def contiguity_lemma(index):
+    """'every run start is fresh'  ==>  equal keys are contiguous: v[a]==v[b], a<b  =>  v[c]==v[a] for a<=c<=b.  Induction on b-a is
+    replaced by the direct argument: take the largest run start s <= b; v[s]==v[b]; if s > a then v[a]==v[s] contradicts freshness."""
+    v = z3.Function("v", z3.IntSort(), ValSort)
+    s = z3.Function("run_start", z3.IntSort(), z3.IntSort())       # witness: start of the run containing position b
+    n, a, b, cc, j, k = z3.Ints("n a b c j k")
+    fresh = ForAll([j], Implies(And(1 <= j, j < n, v(j) != v(j - 1)), ForAll([k], Implies(And(0 <= k, k < j), v(k) != v(j)))))
+    runs = [ForAll([b], Implies(And(0 <= b, b < n), And(0 <= s(b), s(b) <= b, Or(s(b) == 0, v(s(b)) != v(s(b) - 1))))),
+            ForAll([b, cc], Implies(And(0 <= b, b < n, s(b) <= cc, cc <= b), v(cc) == v(b)))]
+    return [("fresh_run_starts_imply_contiguity", [fresh] + runs + [0 <= a, a < b, b < n, v(a) == v(b), a <= cc, cc <= b], v(cc) == v(a))]
+
+
+UNITS.append(ValidateSortingLevel0())
+from pyvc.units import LemmaUnit
+LEMMAS = [LemmaUnit("contiguity", contiguity_lemma)]
